@@ -20,6 +20,7 @@ class Domain:
         self.kind = kind            # "set" | "seq"
         self.kt, self.dom, self.elem, self.et, self.length = kt, dom, elem, et, length
         self.lo = lo
+        self.rng = None             # (lo, hi) of a step-1 range: quantifiers over it bind the value itself, not an offset
 
 
 class CompMixin:
@@ -34,7 +35,10 @@ class CompMixin:
         if isinstance(it, RangeVal):
             n = z3.If(it.hi > it.lo, it.hi - it.lo, 0)
             lo = it.lo
-            return st, Domain("seq", length=n, elem=lambda i: mk_int(lo + i), et=INT)
+            d = Domain("seq", length=n, elem=lambda i: mk_int(lo + i), et=INT)
+            if getattr(it, "step", 1) == 1:
+                d.rng = (it.lo, it.hi)
+            return st, d
         if isinstance(it, EnumVal):
             st, d = self.domain_of(st, it.inner, node)
             if d.kind != "seq":
@@ -113,7 +117,7 @@ class CompMixin:
             raise EngineError(f"iterable expression splits: {ast.unparse(e)}")
         return res
 
-    def _elem_under(self, st, d: Domain, g, idx, exprs):
+    def _elem_under(self, st, d: Domain, g, idx, exprs, absolute=False):
         """Evaluate `exprs` with the comprehension variable bound to the element at idx (a fresh const),
         under the guard 'idx in domain'.  Returns (guard, filter, [values], axioms).
 
@@ -123,9 +127,12 @@ class CompMixin:
         mark = int(fresh_name("mark").split("!")[1])
         if d.kind == "set":
             guard = z3.Select(d.dom, idx)
+        elif absolute and d.rng is not None:
+            # `for q in range(a, b)` under a quantifier: q is the bound variable (terms indexed by q stay matchable)
+            guard = z3.And(d.rng[0] <= idx, idx < d.rng[1])
         else:
             guard = z3.And(0 <= idx, idx < d.length)
-        el = d.elem(idx)
+        el = mk_int(idx) if (absolute and d.kind != "set" and d.rng is not None) else d.elem(idx)
         pushed = [guard]
         st_b = self.bind_target(st.assume(guard), g.target, el)
         if not self.spec:
@@ -200,7 +207,7 @@ class CompMixin:
         """all(...)/any(...) over a generator expression -> z3 quantifier."""
         st1, d, g = self.comp_body(st, node.generators, node.elt)
         idx = z3.Const(fresh_name("q"), zsort(d.kt) if d.kind == "set" else z3.IntSort())
-        guard, flt, (body,), axs = self._elem_under(st1, d, g, idx, [node.elt])
+        guard, flt, (body,), axs = self._elem_under(st1, d, g, idx, [node.elt], absolute=True)
         for a_ in axs:
             st1 = st1.assume(a_)
         b = truth(self.as_value(body))
@@ -263,7 +270,8 @@ class CompMixin:
     def ev_DictComp(self, e, st):
         st1, d, g = self.comp_body(st, e.generators, e.key)
         if d.kind != "set":
-            raise EngineError("dict comprehension over a sequence")
+            yield self._dictcomp_over_seq(st1, d, g, e)
+            return
         idx = z3.Const(fresh_name("c"), zsort(d.kt))
         guard, flt, (k, v), axs = self._elem_under(st1, d, g, idx, [e.key, e.value])
         for a_ in axs:
@@ -278,6 +286,29 @@ class CompMixin:
             st1, va = self.def_array(st1, idx, c, "dc")
             zs.append(va)
         yield st1, V(t, zs)
+
+    def _dictcomp_over_seq(self, st1, d, g, e):
+        """{key(x): val(x) for x in seq if cond(x)}: the key set is exactly the keys of the selected positions; the value of a
+        key is the value at its last selected position (later entries overwrite earlier ones)."""
+        i = z3.Int(fresh_name("i"))
+        guard, flt, (k, v), axs = self._elem_under(st1, d, g, i, [e.key, e.value])
+        for a_ in axs:
+            st1 = st1.assume(a_)
+        k, v = self.as_value(k), self.as_value(v)
+        if isinstance(k.t, TOpt):
+            # a key that the filter shows to be not None (`if x.f is not None`): its value component
+            k = opt_val(k)
+        r = fresh(TMap(k.t, v.t), "dcs")
+        sel = z3.And(guard, flt)
+        j = z3.Int(fresh_name("j"))
+        kq = z3.Const(fresh_name("k"), zsort(k.t))
+        sel_j, k_j = z3.substitute(sel, (i, j)), z3.substitute(k.z, (i, j))
+        ax = [z3.ForAll([i], z3.Implies(sel, z3.Select(r.zs[0], k.z))),
+              z3.ForAll([kq], z3.Implies(z3.Select(r.zs[0], kq), z3.Exists([i], z3.And(sel, k.z == kq))))]
+        last = z3.And(sel, z3.ForAll([j], z3.Implies(z3.And(j > i, sel_j), k_j != k.z)))
+        for arr, c in zip(r.zs[1:], v.zs):
+            ax.append(z3.ForAll([i], z3.Implies(last, z3.Select(arr, k.z) == c)))
+        return st1.assume(z3.And(*ax)), r
 
     def make_bag(self, st, gens, elt):
         st1, d, g = self.comp_body(st, gens, elt)
